@@ -1,5 +1,6 @@
 //! zksim - deterministic simulation with fault injection for midnight-zk.
 #![allow(dead_code)]
+mod alloc_track;
 mod bigcurve;
 mod core;
 mod enc;
@@ -7,6 +8,7 @@ mod fixtures;
 mod gen_circuit;
 mod pipeline;
 mod props;
+mod stdfix;
 mod tracing_t;
 mod util;
 
@@ -16,6 +18,9 @@ use crate::core::{
     prng::DEFAULT_SEED,
     runner::{self, Opts, Tier},
 };
+
+#[global_allocator]
+static GLOBAL: alloc_track::Counting = alloc_track::Counting;
 
 fn usage() -> ! {
     eprintln!(
@@ -31,6 +36,7 @@ fn main() {
         usage();
     }
     match args[0].as_str() {
+        "c16-worker" => std::process::exit(props::c16::worker_main()),
         "list" => {
             for c in props::all() {
                 println!("{}", c.id());
